@@ -110,6 +110,7 @@ type VC struct {
 	droppedStores int
 	epochs int
 	eqHeaps bool
+	named   map[string]string
 }
 
 type Obligation struct {
@@ -145,6 +146,20 @@ func (vc *VC) define(prefix, sort, term string) string {
 	// avoid aliasing chains for atoms
 	if !strings.ContainsAny(term, " (") {
 		return term
+	}
+	if prefix == "e" {
+		// closed contract subterms: one name per distinct term
+		if vc.named == nil {
+			vc.named = map[string]string{}
+		}
+		if n, ok := vc.named[term]; ok {
+			return n
+		}
+		vc.n++
+		n := fmt.Sprintf("%s!%d", prefix, vc.n)
+		vc.named[term] = n
+		vc.items = append(vc.items, fmt.Sprintf("(define-fun %s () %s %s)", n, sort, term))
+		return n
 	}
 	vc.n++
 	n := fmt.Sprintf("%s!%d", prefix, vc.n)
